@@ -305,19 +305,19 @@ fn run_binary(files: &[(usize, bool)], seed: Option<u32>) -> BinObs {
     run_binary_with(files, seed, &[])
 }
 
-/// The first file as a source, all the others in the directory `refs`, given as `-R refs`.
+/// All files in the directory `refs`, given as `-R ./refs`; the first one also as the source `refs/f<i>.slice`.
 fn run_binary_dir(files: &[(usize, bool)], seed: Option<u32>) -> BinObs {
     let mut sc = Scenario::default();
     let mut argv = vec![];
     for (k, (i, _)) in files.iter().enumerate() {
+        // (every file lies in refs/; the first one is ALSO named as a source, under another spelling of its path than
+        // the one the directory walk arrives at: it is one file, compiled once, as a source)
+        sc.tree.push((format!("refs/f{i}.slice"), crate::proc::Node::File(POOL[*i].as_bytes().to_vec())));
         if k == 0 {
-            sc.tree.push((format!("f{i}.slice"), crate::proc::Node::File(POOL[*i].as_bytes().to_vec())));
-            argv.push(format!("f{i}.slice"));
-        } else {
-            sc.tree.push((format!("refs/f{i}.slice"), crate::proc::Node::File(POOL[*i].as_bytes().to_vec())));
+            argv.push(format!("refs/f{i}.slice"));
         }
     }
-    argv.extend(["-R".to_string(), "refs".to_string(), "-D".to_string(), "GIVEN".to_string()]);
+    argv.extend(["-R".to_string(), "./refs".to_string(), "-D".to_string(), "GIVEN".to_string()]);
     sc.gens.push(Gen { name: "capture".into(), install: Install::Script(Script(vec![Step::ReadAll, Step::Stdout(encode_reply(&[], &[])), Step::Exit(0)])) });
     argv.push("-G".into());
     argv.push(crate::proc::gen_spec("{relgen0}", &capture_args()));
@@ -451,8 +451,10 @@ impl Family for Assignments {
         }
         // the files found below a reference DIRECTORY: whatever order the compiler takes them in, it is the same in
         // every run (the first file stays a source, the others are put into refs/)
+        let mut dir_exit: Option<Option<i32>> = None;
         if p < 12 && files.len() >= 3 {
             let d0 = run_binary_dir(&files, Some(0));
+            dir_exit = Some(d0.exit);
             out.steps += 1;
             for seed in 1..seeds.min(4) {
                 let o = run_binary_dir(&files, Some(seed));
@@ -473,6 +475,11 @@ impl Family for Assignments {
         let canon_files: Vec<(usize, bool)> = prog.iter().map(|k| (*k, true)).collect();
         let canon = run_binary(&canon_files, Some(0));
         out.steps += 1;
+        if let Some(de) = dir_exit {
+            if (de == Some(0)) != (canon.exit == Some(0)) {
+                out.violate("c15/binary/acceptance-depends-on-assignment-or-order", format!("all files as sources: exit {:?}; the same files below '-R ./refs' with the first also named as the source refs/f<i>.slice: exit {de:?}\n{}", canon.exit, desc()));
+            }
+        }
         if (canon.exit == Some(0)) != (base.exit == Some(0)) {
             out.violate("c15/binary/acceptance-depends-on-assignment-or-order", format!("canonical arrangement exits {:?}, this one {:?}: {}\n{}", canon.exit, base.exit, show_bytes(&base.stderr), desc()));
         }
